@@ -631,3 +631,58 @@ Lemma repaired_answers :
   run [] (spec_of all_on "liquidityincentive.Msg.VoteGauge")
       (VMsg true [Sacc; VList [VMsg true [VNum 0; Sdec DEC_LIM]; VMsg true [VNum 1; Sdec DEC_LIM]]]) = Err E_HEAD.
 Proof. vm_compute. repeat split; reflexivity. Qed.
+
+Local Close Scope string_scope.
+(* ------------------------------------------------------------------ LiquidityBase / LiquidityQuote *)
+(* the early return on a zero price difference is what keeps them from dividing by zero, for
+   every amount and every pair of prices (in particular the zero-width pair a query can send) *)
+Theorem liq_base_no_division_by_zero : forall amount sa sb, liq_base true amount sa sb <> DDivZero.
+Proof.
+  intros amount sa sb. unfold liq_base. destruct (order2 sa sb) as [a b].
+  destruct (dmul a b); [|discriminate]. destruct (dsub b a) as [diff|]; [|discriminate].
+  destruct (diff =? 0) eqn:E; simpl; [discriminate|].
+  destruct (dmul (dec_of_int amount) z); [|discriminate]. destruct (dquo z0 diff); discriminate.
+Qed.
+Theorem liq_quote_no_division_by_zero : forall amount sa sb, liq_quote true amount sa sb <> DDivZero.
+Proof.
+  intros amount sa sb. unfold liq_quote. destruct (order2 sa sb) as [a b].
+  destruct (dsub b a) as [diff|]; [|discriminate].
+  destruct (diff =? 0) eqn:E; simpl; [discriminate|]. destruct (dquo (dec_of_int amount) diff); discriminate.
+Qed.
+(* zero width gives zero liquidity, not a panic *)
+Lemma liq_zero_width : forall amount s, Z.abs (chop_round (s * s)) <= DEC_LIM ->
+  liq_base true amount s s = DOk 0 /\ liq_quote true amount s s = DOk 0.
+Proof.
+  intros amount s H. unfold liq_base, liq_quote, order2. rewrite Z.ltb_irrefl.
+  unfold dmul, dsub, chk, in_range. apply Z.leb_le in H. rewrite H. rewrite Z.sub_diag. simpl. split; reflexivity.
+Qed.
+(* without the early return the zero-width input divides by zero: price 1 on both sides *)
+Lemma liq_base_without_guard_divides_by_zero : liq_base false 1000 P P = DDivZero.
+Proof. vm_compute. reflexivity. Qed.
+Lemma liq_quote_without_guard_divides_by_zero : liq_quote false 1000 P P = DDivZero.
+Proof. vm_compute. reflexivity. Qed.
+
+(* the same functions in the AMM model of C02-C06 (Amm/Math.v, None = any panic) *)
+From Sunrise Require Amm.Math.
+Lemma liq_base_agrees_with_amm : forall amount sa sb,
+  Amm.Math.liquidity_base amount sa sb =
+  match liq_base true amount sa sb with DOk z => Some z | _ => None end.
+Proof.
+  intros. unfold Amm.Math.liquidity_base, liq_base, Amm.Math.order, order2.
+  destruct (sb <? sa); simpl;
+    (destruct (dmul _ _) as [pr|]; simpl; [|reflexivity];
+     destruct (dsub _ _) as [diff|]; simpl; [|reflexivity];
+     destruct (diff =? 0) eqn:E; simpl; [reflexivity|];
+     destruct (dmul (dec_of_int amount) pr) as [m|]; simpl; [|reflexivity];
+     destruct (dquo m diff); reflexivity).
+Qed.
+Lemma liq_quote_agrees_with_amm : forall amount sa sb,
+  Amm.Math.liquidity_quote amount sa sb =
+  match liq_quote true amount sa sb with DOk z => Some z | _ => None end.
+Proof.
+  intros. unfold Amm.Math.liquidity_quote, liq_quote, Amm.Math.order, order2.
+  destruct (sb <? sa); simpl;
+    (destruct (dsub _ _) as [diff|]; simpl; [|reflexivity];
+     destruct (diff =? 0) eqn:E; simpl; [reflexivity|];
+     destruct (dquo (dec_of_int amount) diff); reflexivity).
+Qed.
